@@ -1,5 +1,5 @@
 (** * C11 — tree traversal reaches every node exactly once and never fails (partial). *)
-From PQL Require Import Model.Walk Proofs.TableFacts.
+From PQL Require Import Model.Walk Model.Parser Proofs.TableFacts Proofs.WalkFacts Proofs.WalkTree.
 From Coq Require Import String.
 Local Open Scope list_scope.
 Local Open Scope nat_scope.
@@ -40,3 +40,42 @@ Theorem C11_optional_guarded :
     end) optional_fields = true.
 Proof. exact walk_optional_guarded. Qed.
 Print Assumptions C11_optional_guarded.
+
+(** The traversal itself.  [pre visitor c forest visits c'] (coq/Proofs/WalkFacts.v) is the recursive
+    pre-order traversal: a node is visited, then - if the visitor answered true - its children
+    (what the table pushes, in the order they are popped), then its right siblings; a false answer
+    contributes the node and nothing below it.  For every statement the parser can build and every
+    visitor (pruning included), the explicit-stack machine of Walk returns normally - no panic, no
+    nil - with exactly those visits: every reachable node once, parents before children. *)
+Theorem C11_walk_is_preorder : forall visitor s,
+  exists vs c', pre visitor 0 [g_stmt s] vs c' /\
+    forall fuel, length vs < fuel -> walk_loop fuel visitor 0 [WNode (g_stmt s)] [] = WOk vs.
+Proof. intros visitor s. apply walk_is_preorder. apply walkable_stmt. Qed.
+Print Assumptions C11_walk_is_preorder.
+
+(** the visitor never receives nil *)
+Theorem C11_no_nil : forall visitor c forest vs c', pre visitor c forest vs c' -> ~ In VNil vs.
+Proof. exact pre_no_nil. Qed.
+Print Assumptions C11_no_nil.
+
+(** returning false skips exactly that node's descendants: the traversal continues with its right siblings *)
+Theorem C11_prune : forall visitor c n rest vs c', visitor c n = false -> pre visitor c (n :: rest) vs c' ->
+  exists v2, vs = VNode n :: v2 /\ pre visitor (S c) rest v2 c'.
+Proof. exact pre_prune. Qed.
+Print Assumptions C11_prune.
+
+(** returning true: the node, then the traversal of its children, then its right siblings *)
+Theorem C11_descend : forall visitor c n rest vs c', visitor c n = true -> pre visitor c (n :: rest) vs c' ->
+  exists v1 c1 v2, vs = VNode n :: v1 ++ v2 /\ pre visitor (S c) (kids_of n) v1 c1 /\ pre visitor c1 rest v2 c'.
+Proof. exact pre_descend. Qed.
+Print Assumptions C11_descend.
+
+(** the visitor is called exactly once per visit *)
+Theorem C11_one_call_per_visit : forall visitor c forest vs c', pre visitor c forest vs c' -> c' = c + length vs.
+Proof. exact pre_calls. Qed.
+Print Assumptions C11_one_call_per_visit.
+
+(** children are strictly inside their parent (so the traversal is of a finite tree) *)
+Theorem C11_children_inside : forall n c, In c (kids_of n) -> gsize c < gsize n.
+Proof. exact kids_smaller. Qed.
+Print Assumptions C11_children_inside.
